@@ -171,8 +171,10 @@ def confusable_groups():
         [127, 127.0, D(127)],
         [65535, 65535.0],
         [D('-1'), D('-1.0')],
-        [D('0.0000000001'), D('0.00000000012'), D('0.000000000123'),
-         D('0.0000000000001'), D('1.00000000001').normalize()],
+        # many decimal places with a 32-bit mantissa, written positionally
+        # (str() has a '.'): only such values take the scaling path
+        [D('0.1234567891'), D('0.01234567891'), D('0.001234567891'),
+         D('0.0001234567891'), D('0.2000000001'), D('0.02000000001')],
         [naive, naive.replace(tzinfo=UTC)],
         [{'a': 1}, {'a': True}, {'a': 1.0}],
         [[1, 0], [True, False], [1.0, 0.0]],
@@ -765,12 +767,30 @@ def gen_trace(rng, check, population, tier, cat):
                 'marshal', 'unmarshal', 'enc', 'dec', 'construct')][:4]
             prog.extend(anchors)
         threads.append(prog)
+        if population == 'threads_mirror':
+            break
+    if population == 'threads_mirror':
+        # every thread runs (nearly) the same program: identical calls meet
+        # in the same first-time code paths (lazy initialisation, table
+        # growth) at the same time, and the novel-line policy switches
+        # exactly there
+        base = [o for o in threads[0] if o['op'] not in ('mutate', 'setattr',
+                                                         'marshal_slot')]
+        threads = [list(base)]
+        for t in range(1, n):
+            p2 = list(base)
+            if r.random() < 0.4 and len(p2) > 2:
+                i = r.randrange(len(p2) - 1)
+                p2[i], p2[i + 1] = p2[i + 1], p2[i]
+            if r.random() < 0.3:
+                p2 = p2[r.randrange(0, min(3, len(p2))):]
+            threads.append(p2)
     tr['threads'] = threads
     est = sum(len(p) for p in threads) * 120
     tr['schedule'], tr['policy'] = gen_schedule(r, n, est)
     tr['exit_picks'] = [r.randrange(8) for _ in range(4)]
     tr['first'] = r.randrange(n)
-    if n > 1 and r.random() < 0.5:
+    if n > 1 and (r.random() < 0.5 or population == 'threads_mirror'):
         tr['novel'] = {'every': r.choice([1, 1, 2, 3, 5]),
                        'picks': [r.randrange(8) for _ in range(6)]}
     if r.random() < 0.15:
